@@ -16,7 +16,7 @@ import (
 func TestC12_History(t *testing.T) {
 	rec := recorder("C12")
 	rec.AddRule("(a) rapid histories biased to check-ins (first, repeated, key change before/after the check-in fork, shared validator keys), configuration votes and block-seen reports, n<=6 keypers, every threshold: each ResponseEndBlock.ValidatorUpdates is folded over a reference Tendermint validator set (sorted, no duplicates, removals hit existing keys, total power > 0) and the folded set must equal the model's intended set; after each change checked-in keypers hold > 2/3 of the power; non-trivial = history with at least one non-empty update list. (b) exhaustive pairs of power maps over 4 keys x powers {absent,10,20,30}: fold(old, Diff(old,new)) == new")
-	runRapid(t, N(500, 20000), func(rt *rapid.T) {
+	runRapid(t, N(500, 200000), func(rt *rapid.T) {
 		g := genGenesis(rt)
 		c := NewChain(g, 1, func(sig, f string, a ...any) { fatalf(rt, sig, f, a...) })
 		c.CheckVals = true
